@@ -22,7 +22,7 @@ add("C12", "pbt", "differential testing against an independent exact implementat
     "DESIGN.md §7 C12")
 
 add("C03", "pbt", "property-based testing (proptest): independent encoder with per-node choice among all admissible encodings -> library decoder, value equality + trailing-data check",
-    "An independent ETF writer emits every generated value in a generated mix of all admissible forms (small/large, legacy, text float, four atom tags incl. Latin-1, STRING_EXT, split lists, legacy/NEW_PORT identifier tags, LOCAL_EXT, COMPRESSED stored and deflate) with and without junk appended; the library's decode, decode_with_trailing, decode_raw_term and decode_with_atom_cache must return exactly that value / report the trailing bytes.",
+    "An independent ETF writer emits every generated value in a generated mix of all admissible forms (small/large, legacy, text float, four atom tags incl. Latin-1, STRING_EXT, split lists, legacy/NEW_PORT identifier tags, LOCAL_EXT, COMPRESSED stored and deflate) with and without junk appended; the library's decode, decode_with_trailing, decode_raw_term and decode_with_atom_cache must return exactly that value / report the trailing bytes; a valid term nested up to 250 levels must decode whatever the same thread decoded (and rejected) before.",
     "Trusts refmodel's writer to emit only encodings erl_ext_dist permits (self-checked against refmodel's reader). Known open finding C03-F1 (maps with ==-equal keys).",
     "DESIGN.md §7 C03")
 add("C05", "pbt", "exhaustive enumeration of all chunkings of short streams + property-based testing over random streams through a custom chunking/Pending AsyncRead and AsyncWrite",
@@ -38,7 +38,7 @@ add("C09", "pbt", "exhaustive enumeration of all n! arrival orders (n<=5/7) x du
     "Known open findings C09-F1 (ascending-id concatenation, pinned by the repo's tests) and C09-F2 (>100000 fragments never complete); every other clause is still decided on the full domain.",
     "DESIGN.md §7 C09")
 add("C10", "pbt", "property-based testing: independent encoder places identifiers (plain / LOCAL_EXT, every inner tag) in every context; byte spans located by an independent reader; generated conversion sequences",
-    "Carrier terms with identifiers in every context are decoded, put through generated sequences of clone / owned->zero-copy->owned / wire trip / moves into containers, and re-encoded; identifier byte spans (found by an independent reader) must be byte-identical, and the same logical identifier in plain and LOCAL_EXT form (different hashes, differently spelled node atom) must be ==, hash alike and compare Equal.",
+    "Carrier terms with identifiers in every context are decoded, put through generated sequences of clone / owned->zero-copy->owned / wire trip / moves into containers, and re-encoded; identifier byte spans (found by an independent reader) must be byte-identical - through encode, through the distribution-header encoder, and for identifiers received in a distribution-header frame - and the same logical identifier in plain and LOCAL_EXT form (different hashes, differently spelled node atom) must be ==, hash alike and compare Equal.",
     "Byte identity is required for LOCAL_EXT and for plain identifiers in the form the library reconstructs from fields; a plain identifier received in another equivalent tag must keep its logical fields.",
     "DESIGN.md §7 C10")
 add("C13", "pbt", "differential testing owned vs zero-copy decoder over valid encodings, every truncation of a sample, mutations and raw bytes (proptest + exhaustive truncations)",
@@ -46,7 +46,7 @@ add("C13", "pbt", "differential testing owned vs zero-copy decoder over valid en
     "Nesting depth of inputs is bounded (stack exhaustion is C02's subject).",
     "DESIGN.md §7 C13")
 add("C14", "pbt", "exhaustive sweep of atom counts 0..258 x long-atom x payload + proptest; independent distribution-header reader and a conforming sender model with persistent 2048-slot cache",
-    "(a) The library's header-mode encodings for every atom count/parity/length class are read by an independent header reader and by the library's own reader; (b) sequences of messages from a conforming sender model (new entries, re-use across messages, overwrites, all segments, position != slot, inline and long atoms) must decode, with one AtomCache, to exactly what the sender meant.",
+    "(a) The library's header-mode encodings for every atom count/parity/length class are read by an independent header reader and by the library's own reader; (b) sequences of messages from a conforming sender model (new entries, re-use across messages, overwrites, all segments, position != slot, inline and long atoms) must decode, with one AtomCache, to exactly what the sender meant, also when an earlier message was cut short behind its (complete) header.",
     "Trusts refmodel::dist as a reading of the distribution header layout.",
     "DESIGN.md §7 C14")
 add("C15", "pbt", "property-based round-trip testing over a family of 38 Rust types (serde derive + derive(ElixirStruct)), via term and via bytes",
@@ -64,7 +64,7 @@ add("C02", "pbt", "adversarial input generation + fuzz-style mutation, executed 
     "DESIGN.md §7 C02")
 
 add("C16", "sched", "exhaustive schedule enumeration (stateless DFS) under a deterministic baton-passing thread scheduler + random schedules (proptest) + long sequential histories + OS-thread stress",
-    "Every interleaving of the instrumented atomic steps of 2..3 concurrent allocate()/make_reference() calls is enumerated from counter positions around the wrap point and the serial's 32-bit wrap; random schedules for up to 4 threads; 3 x 2^20 sequential allocations across three wraps with creation changes; hook-free OS-thread stress across the wrap. Oracle: pairwise distinct, never a pid the current epoch already issued, right creation, ids restart at 1, no deadlock.",
+    "Every interleaving of the instrumented atomic steps of 2..3 concurrent allocate()/make_reference() calls is enumerated from counter positions around the wrap point and the serial's 32-bit wrap; random schedules for up to 4 threads; 3 x 2^20 sequential allocations across three wraps with creation changes; hook-free OS-thread stress across the wrap; node operations that make references (monitor of local / unreachable / unconnected targets, unlink) interleaved with make_reference at the node's yield points. Oracle: pairwise distinct, never a pid the current epoch already issued, right creation, ids restart at 1, no deadlock.",
     "Interleavings are controlled only at the sync_point hooks (cfg edp_rs_verif); a rewrite that drops the hooks is only reachable by the stress and history campaigns. The 2^32-call horizon of reference words is outside every history.",
     "DESIGN.md §7 C16")
 
@@ -81,7 +81,7 @@ add("C07", "netbed", "property-based testing with an independent protocol reader
     "Task interleaving is controlled at sched_point hooks and real I/O waits only.",
     "DESIGN.md §7 C07")
 add("C17", "netbed", "stateful property-based testing: generated waves of concurrent remote calls against a scripted peer (replies in generated order, late / duplicate / stray replies, silence, peer close before or during a wave) + generated task schedules, virtual clock",
-    "1..3 waves of 1..6 concurrent rpc_call_raw_with_timeout calls through one Node, each with its own virtual timeout and a unique argument; the peer answers at once, late, never, twice, or again during the next wave, in generated order, sends replies to pids that never had a call, and closes before or during the last wave. A call must return its own reply or a timeout / cancellation / connection error, never another call's reply; a reply consumed before the timeout must not be reported as a timeout; when all calls have returned the outstanding-call table must be empty (hook accessor).",
+    "1..3 waves of 1..6 concurrent rpc_call_raw_with_timeout calls through one Node, each with its own virtual timeout and a unique argument; the peer answers at once, late, never, twice, or again during the next wave, in generated order, sends replies to pids that never had a call, and closes before or during the last wave. Caller identifiers are optionally re-used one allocator round later; a second campaign sends a request larger than the socket buffers to a peer that reads only after the call's timeout has passed (the frame must arrive whole). A call must return its own reply or a timeout / cancellation / connection error, never another call's reply; a reply consumed before the timeout must not be reported as a timeout; when all calls have returned the outstanding-call table must be empty (hook accessor).",
     "Virtual time moves only when the script advances it; task interleaving is controlled at sched_point hooks (registration / wait / lookup steps).",
     "DESIGN.md §7 C17")
 add("C18", "netbed", "model-based stateful property testing (proptest histories of spawn/register/link/monitor/send/failure/$gen_call against a process-table model) under generated yield schedules + unshrunk parallel stress on a multi-threaded runtime",
